@@ -120,11 +120,11 @@ impl Property for C05 {
     }
     fn enumerate(&self, quick: bool) -> Box<dyn Iterator<Item = Case> + Send + '_> {
         if quick {
-            Box::new([FamId::K256, FamId::CombinedEd, FamId::Var].into_iter().flat_map(|f| history::exhaustive(f, 2)).chain(history::depth1_rest(&[FamId::K256, FamId::CombinedEd, FamId::Var])).map(Case::Hist))
+            Box::new([FamId::K256, FamId::CombinedEd, FamId::Var].into_iter().flat_map(|f| history::exhaustive(f, 2)).chain(history::depth1_rest(&[FamId::K256, FamId::CombinedEd, FamId::Var])).chain(history::long_repeats(true)).map(Case::Hist))
         } else {
             let d3 = [FamId::K256].into_iter().flat_map(|f| history::exhaustive(f, 3));
             let d2 = ALL_FAMS.into_iter().filter(|f| *f != FamId::K256).flat_map(|f| history::exhaustive(f, 2));
-            Box::new(d3.chain(d2).map(Case::Hist))
+            Box::new(d3.chain(d2).chain(history::long_repeats(false)).map(Case::Hist))
         }
     }
     fn fuzz_plans(&self) -> Vec<(&'static str, u64)> {
